@@ -70,10 +70,13 @@ const (
 	apiDaoAsync
 	apiFind
 	apiTlog
+	apiDaoStep
+	apiFindStep
 	apiCount
 )
 
-var apiNames = []string{"Seek", "Seek-early-stop", "SeekAsync", "SeekAsync-cut", "SeekAsync-cancel", "dao.Seek", "dao.SeekAsync", "Storage.Find-iterator", "dao.SeekNEPxxTransferLog"}
+var apiNames = []string{"Seek", "Seek-early-stop", "SeekAsync", "SeekAsync-cut", "SeekAsync-cancel", "dao.Seek", "dao.SeekAsync", "Storage.Find-iterator", "dao.SeekNEPxxTransferLog",
+	"dao.SeekAsync-stepwise-with-interleaved-dao-use", "Storage.Find-iterator-stepwise-with-interleaved-dao-use"}
 
 const (
 	cmpBoth = iota
@@ -104,6 +107,53 @@ type query struct {
 	// diskOnly marks a range with an empty Prefix, which is documented as
 	// unsupported by MemoryStore / MemCachedStore: asked of BoltDB and LevelDB only.
 	diskOnly bool
+	// script[i] lists what else is done with the same dao before the i-th
+	// item is pulled from a stepwise iterator (script[0]: right after opening).
+	script [][]inter
+}
+
+// inter is one use of the dao between two steps of an open iterator.
+type inter struct {
+	kind int // 0 GetStorageItem, 1 PutStorageItem / DeleteStorageItem, 2 full dao.Seek, 3 open a second iterator and pull one item
+	head []byte
+	sfx  []byte
+	val  []byte
+}
+
+func (a inter) String() string {
+	return fmt.Sprintf("%s(%x|%x %q)", []string{"GetStorageItem", "Put/DeleteStorageItem", "dao.Seek", "second-SeekAsync"}[a.kind], a.head, a.sfx, a.val)
+}
+
+func headID(h []byte) int32 {
+	return int32(uint32(h[1]) | uint32(h[2])<<8 | uint32(h[3])<<16 | uint32(h[4])<<24)
+}
+
+// interleave uses dao d for something else while an iterator over it is open.
+func interleave(d *dao.Simple, acts []inter, cleanup *[]func()) {
+	for _, a := range acts {
+		id := headID(a.head)
+		switch a.kind {
+		case 0:
+			_ = d.GetStorageItem(id, a.sfx)
+		case 1:
+			if a.val == nil {
+				d.DeleteStorageItem(id, a.sfx)
+			} else {
+				d.PutStorageItem(id, a.sfx, a.val)
+			}
+		case 2:
+			d.Seek(id, storage.SeekRange{Prefix: bytes.Clone(a.sfx)}, func(k, v []byte) bool { return true })
+		default:
+			ctx, cancel := context.WithCancel(context.Background())
+			ch := d.SeekAsync(ctx, id, storage.SeekRange{Prefix: bytes.Clone(a.sfx)})
+			<-ch
+			*cleanup = append(*cleanup, func() {
+				cancel()
+				for range ch { //nolint:revive // drain
+				}
+			})
+		}
+	}
 }
 
 func (q *query) String() string {
@@ -115,8 +165,13 @@ func (q *query) String() string {
 	if q.stop > 0 {
 		s += fmt.Sprint(" stop-after=", q.stop)
 	}
-	if q.api == apiFind {
+	if q.api == apiFind || q.api == apiFindStep {
 		s += fmt.Sprintf(" opts=%#x", q.opts)
+	}
+	for i, acts := range q.script {
+		for _, a := range acts {
+			s += fmt.Sprintf(" | before pull %d: %s", i, a)
+		}
 	}
 	return s
 }
@@ -255,29 +310,63 @@ func (rp *replica) exec(q *query) (res []refmap.KV, broken string) {
 			}
 		}
 		cancel()
-	case apiDaoSeek, apiDaoAsync, apiFind:
+	case apiDaoSeek, apiDaoAsync, apiFind, apiDaoStep, apiFindStep:
 		d := rp.daos[q.target]
-		id := int32(uint32(q.head[1]) | uint32(q.head[2])<<8 | uint32(q.head[3])<<16 | uint32(q.head[4])<<24)
+		id := headID(q.head)
 		rel := q.rng.Prefix[len(q.head):]
 		sr := toSR(q.rng)
 		sr.Prefix = bytes.Clone(rel)
 		full := func(trimmed []byte) []byte { return append(bytes.Clone(q.rng.Prefix), trimmed...) }
+		var cleanup []func()
+		step := 0
+		between := func() { // what happens to the dao before the next item is pulled
+			if step < len(q.script) {
+				interleave(d, q.script[step], &cleanup)
+			}
+			step++
+		}
 		switch q.api {
 		case apiDaoSeek:
 			d.Seek(id, sr, func(k, v []byte) bool {
 				add(full(k), v)
 				return q.stop == 0 || len(res) < q.stop
 			})
-		case apiDaoAsync:
+		case apiDaoAsync, apiDaoStep:
 			ctx, cancel := context.WithCancel(context.Background())
-			for kv := range d.SeekAsync(ctx, id, sr) {
+			ch := d.SeekAsync(ctx, id, sr)
+			stopped := false
+			for {
+				if !stopped {
+					between()
+				}
+				kv, ok := <-ch
+				if !ok {
+					break
+				}
+				if stopped {
+					continue
+				}
 				add(full(kv.Key), kv.Value)
+				if q.stop > 0 && len(res) == q.stop {
+					cancel()
+					stopped = true
+				}
 			}
 			cancel()
 		default:
 			ctx, cancel := context.WithCancel(context.Background())
 			it := istorage.NewIterator(d.SeekAsync(ctx, id, sr), rel, q.opts)
-			for it.Next() {
+			stopped := false
+			for {
+				if !stopped {
+					between()
+				}
+				if !it.Next() {
+					break
+				}
+				if stopped {
+					continue
+				}
 				item := it.Value()
 				var k, v []byte
 				var err error
@@ -308,8 +397,15 @@ func (rp *replica) exec(q *query) (res []refmap.KV, broken string) {
 					}
 				}
 				add(k, v)
+				if q.stop > 0 && len(res) == q.stop {
+					cancel() // what the interop layer does when the execution ends with the iterator open
+					stopped = true
+				}
 			}
 			cancel()
+		}
+		for _, f := range cleanup {
+			f()
 		}
 	}
 	return res, broken
@@ -387,7 +483,7 @@ func diffKind(q *query, got, want []refmap.KV, view map[string][]byte) string {
 
 // isCut tells whether the API asks the store to trim the prefix off the keys.
 func isCut(api int) bool {
-	return api == apiAsyncCut || api == apiAsyncCancel || api == apiDaoAsync || api == apiFind
+	return api == apiAsyncCut || api == apiAsyncCancel || api == apiDaoAsync || api == apiFind || api == apiDaoStep || api == apiFindStep
 }
 
 // ghostCands marks the elements of want (in iteration order) whose full key
@@ -783,7 +879,7 @@ func (c *seqCase) genQuery(target int, depth0 bool) *query {
 				h := heads[hi]
 				if len(h) == 5 && h[0] == byte(c.sh.stPref) && bytes.HasPrefix(q.rng.Prefix, h) && r.Intn(2) == 0 {
 					q.head = h
-					q.api = apiDaoSeek + r.Intn(3)
+					q.api = []int{apiDaoSeek, apiDaoAsync, apiFind, apiDaoStep, apiFindStep}[r.Weighted([]int{2, 2, 2, 3, 3})]
 				}
 			}
 		}
@@ -800,7 +896,22 @@ func (c *seqCase) genQuery(target int, depth0 bool) *query {
 		if r.Intn(4) == 0 && !ambiguous {
 			q.stop = 1 + r.Intn(3)
 		}
-	case apiFind:
+	case apiDaoStep:
+		if r.Intn(3) == 0 && !ambiguous {
+			q.stop = 1 + r.Intn(3)
+		}
+		c.genScript(q)
+	case apiFind, apiFindStep:
+		if q.api == apiFindStep {
+			if r.Intn(3) == 0 {
+				q.stop = 1 + r.Intn(3)
+			}
+			if r.Intn(2) == 0 {
+				// Find-style scans are mostly wide: the whole contract or one short prefix
+				q.rng.Prefix = append(bytes.Clone(q.head), seekPres[r.Intn(3)]...)
+			}
+			c.genScript(q)
+		}
 		q.rng.Start = nil
 		q.rng.SearchDepth = 0
 		q.opts = []int64{istorage.FindDefault, istorage.FindRemovePrefix, istorage.FindKeysOnly, istorage.FindKeysOnly | istorage.FindRemovePrefix, istorage.FindValuesOnly}[r.Intn(5)]
@@ -815,6 +926,64 @@ func (c *seqCase) genQuery(target int, depth0 bool) *query {
 		}
 	}
 	return q
+}
+
+// scratchHead is a contract id outside the case's heads, written to between
+// the steps of an open iterator.
+func (c *seqCase) scratchHead() []byte {
+	return []byte{byte(c.sh.stPref), 0xee, 0xee, 0xee, 0x7e}
+}
+
+// genScript draws what is done with the same dao while the iterator of q is
+// open: reads, scans and second iterators on other prefixes / contract ids, and
+// writes to a scratch contract (they never touch the range being iterated).
+func (c *seqCase) genScript(q *query) {
+	r := c.r
+	for i := 0; i < 6; i++ {
+		var acts []inter
+		n := r.Weighted([]int{2, 5, 2})
+		if i == 0 && r.Bool() {
+			n = 0 // half of the iterators are left alone until the first item has been pulled
+		}
+		for j := 0; j < n; j++ {
+			a := inter{kind: r.Weighted([]int{4, 2, 3, 1}), sfx: bytes.Clone(c.sfx[r.Intn(len(c.sfx))])}
+			switch {
+			case a.kind == 1:
+				a.head = c.scratchHead()
+				if r.Intn(4) != 0 {
+					a.val = c.val()
+				}
+			case r.Intn(3) == 0:
+				a.head = c.scratchHead()
+			default:
+				a.head = q.head
+				for _, hi := range c.sh.h { // the other contract of the case when there is one
+					if h := heads[hi]; len(h) == 5 && h[0] == byte(c.sh.stPref) && !bytes.Equal(h, q.head) && r.Bool() {
+						a.head = h
+					}
+				}
+			}
+			acts = append(acts, a)
+		}
+		q.script = append(q.script, acts)
+	}
+}
+
+// applyScript records the scratch writes of a stepwise query in the model (the
+// replicas performed them while the iterator was open). Only the steps that
+// every replica reaches are written: the generator keeps writes out of steps
+// whose execution depends on the length of the answer.
+func (c *seqCase) applyScript(q *query, steps int) {
+	for i, acts := range q.script {
+		if i >= steps {
+			break
+		}
+		for _, a := range acts {
+			if a.kind == 1 {
+				c.m.Put(q.target, string(append(bytes.Clone(a.head), a.sfx...)), a.val)
+			}
+		}
+	}
 }
 
 // observeMerge notes whether the wanted answer is assembled from several
@@ -891,6 +1060,25 @@ func (c *seqCase) ask(q *query) ([][]string, []string) {
 	}
 	if want == nil {
 		want = refmap.Seek(view, q.rng, true)
+	}
+	if len(q.script) > 0 {
+		// One script step runs before every pull, the one that finds the
+		// iterator exhausted included, and none after a cancellation.
+		n := len(refmap.Seek(view, q.rng, true))
+		steps := n + 1
+		if q.stop > 0 && n >= q.stop {
+			steps = q.stop
+		}
+		c.applyScript(q, steps)
+		c.run.Obs("stepwise_iterations_with_interleaved_dao_use", 1)
+		for i, acts := range q.script {
+			if i < steps {
+				c.run.Obs("dao_uses_interleaved_between_iterator_steps", int64(len(acts)))
+			}
+		}
+		if q.stop > 0 && n > q.stop {
+			c.run.Obs("stepwise_iterations_cancelled_midway", 1)
+		}
 	}
 	c.run.Obs("seek_answers_compared_with_model", int64(asked))
 	if q.diskOnly {
